@@ -24,6 +24,9 @@ pub enum Abort {
     ReadCap,
     /// Stack use above the real main thread's limit.
     StackExhausted,
+    /// A clock-limited search entered this many nodes without reading the clock
+    /// (payload: node index at which the gap began).
+    PollGap(u64),
 }
 
 #[derive(Debug, Clone, PartialEq, Eq)]
@@ -91,10 +94,16 @@ pub struct SearchRecord {
     pub ns_at_deadline: u64,
     pub end_ns: u64,
     pub tt_hits: u64,
+    pub tt_hits_exact: u64,
     pub tt_hits_deeper: u64,
     /// Output line index at the time of start (to attribute info lines).
     pub out_line_at_start: usize,
     pub max_stack: usize,
+    /// (reads, nodes, tt_hits, tt_hits_deeper) at each `info depth` line of this search.
+    pub info_marks: Vec<(u64, u64, u64, u64)>,
+    /// node count at the most recent clock read of this search
+    pub nodes_at_last_read: u64,
+    pub max_poll_gap_seen: u64,
 }
 
 #[derive(Debug, Clone, Default)]
@@ -119,6 +128,8 @@ pub struct SimState {
     pub max_nodes_per_search: u64,
     pub max_nodes_after_deadline: u64,
     pub max_reads_per_search: u64,
+    /// abort a clock-limited search that enters more nodes than this between two clock reads
+    pub max_poll_gap: u64,
     // input
     pub input: VecDeque<Chunk>,
     pub eof_reads: u64,
@@ -162,6 +173,7 @@ impl SimState {
             max_nodes_per_search: 20_000_000,
             max_nodes_after_deadline: u64::MAX,
             max_reads_per_search: 400_000_000,
+            max_poll_gap: u64::MAX,
             input: VecDeque::new(),
             eof_reads: 0,
             max_eof_reads: 8,
@@ -321,6 +333,7 @@ impl Sim for World {
                 }
             }
             s.end_ns = now;
+            s.nodes_at_last_read = s.nodes;
             if s.reads > maxr {
                 abort = true;
             }
@@ -379,6 +392,12 @@ impl Sim for World {
             let line: String = st.out_partial[..i].to_string();
             st.out_partial.drain(..=i);
             st.ev(&format!("out {}", line));
+            if line.starts_with("info depth") {
+                if let Some(s) = st.searches.last_mut() {
+                    let m = (s.reads, s.nodes, s.tt_hits, s.tt_hits_deeper);
+                    s.info_marks.push(m);
+                }
+            }
             st.out_lines.push(line);
         }
     }
@@ -410,6 +429,7 @@ impl Sim for World {
         let lim = st.stack_limit;
         let maxn = st.max_nodes_per_search;
         let maxo = st.max_nodes_after_deadline;
+        let maxgap = st.max_poll_gap;
         let mut abort: Option<Abort> = None;
         if let Some(s) = st.searches.last_mut() {
             s.nodes += 1;
@@ -424,6 +444,15 @@ impl Sim for World {
             }
             if s.nodes > maxn {
                 abort = Some(Abort::NodeCap);
+            }
+            if s.limit.is_some() {
+                let gap = s.nodes - s.nodes_at_last_read;
+                if gap > s.max_poll_gap_seen {
+                    s.max_poll_gap_seen = gap;
+                }
+                if gap > maxgap {
+                    abort = Some(Abort::PollGap(s.nodes_at_last_read));
+                }
             }
             if base != 0 {
                 let here = stack_addr();
@@ -470,9 +499,13 @@ impl Sim for World {
             ns_at_deadline: 0,
             end_ns: 0,
             tt_hits: 0,
+            tt_hits_exact: 0,
             tt_hits_deeper: 0,
             out_line_at_start,
             max_stack: 0,
+            info_marks: vec![],
+            nodes_at_last_read: 0,
+            max_poll_gap_seen: 0,
         });
     }
 
@@ -505,11 +538,14 @@ impl Sim for World {
             Event::TtHit {
                 entry_depth,
                 requested_depth,
-                ..
+                exact,
             } => {
                 let deeper = entry_depth > requested_depth;
                 if let Some(s) = st.searches.last_mut() {
                     s.tt_hits += 1;
+                    if *exact {
+                        s.tt_hits_exact += 1;
+                    }
                     if deeper {
                         s.tt_hits_deeper += 1;
                     }
